@@ -8,6 +8,7 @@
 //  * _mm*_loadu_ps / _mm*_storeu_ps   REQUIRE off + W <= len for W = 4 / 8 / 16 lanes: the whole vector lies inside the object
 //  * every other intrinsic touches no memory: opaque external_body stub on the opaque register types __m128 / __m256 / __m512
 //  * .vx_step_by(k)   stands for `Range<usize>::step_by(k)`: yields start, start + k, ... while < end
+//  * vx_at(s, i)      stands for the safe index expression `s[i]` (same bounds condition)
 //  * .vx_hsum()       stands for `<[f32; N]>::iter().sum()` (value only)
 //@trusted SIMD pointer model (prelude/simd_env.rs): `s.as_ptr()` on a `&[f32]` / `t.as_mut_ptr()` on a `[f32; N]` becomes the ghost pair VxPtr { len = lanes of s / N, off = 0 }; `p.add(n)` REQUIRES p.off + n <= p.len (pointer::add must stay inside the allocation or one past its end) and yields off + n; `_mm_loadu_ps(p)` / `_mm256_loadu_ps(p)` / `_mm512_loadu_ps(p)` REQUIRE p.off + 4 / 8 / 16 <= p.len, `_mm*_storeu_ps(p, v)` the same on the destination; unaligned variants: no alignment condition.  Pointer casts `as *const _` / `as *mut _` are erased (same address, the intrinsic fixes the access width)
 //@trusted the arithmetic intrinsics `_mm*_setzero_ps`, `_mm*_add_ps`, `_mm*_sub_ps`, `_mm*_mul_ps`, `_mm256/512_fmadd_ps` are opaque functions on opaque register types (they touch no memory; their values are not specified); `[f32; N]::iter().sum()` is the opaque vx_hsum; a store through a VxPtr does not change the modelled value of the array it points into (lane values never reach an index or a trip count)
@@ -62,7 +63,7 @@ impl<const N: usize> VxAsPtr for [f32; N] {
 pub trait VxAsMutPtr {
     spec fn vx_mut_lanes(&self) -> int;
     fn vx_as_mut_ptr(&mut self) -> (p: VxPtr)
-        ensures p.len@ == old(self).vx_mut_lanes(), p.off@ == 0, *final(self) == *old(self);
+        ensures p.len@ == old(self).vx_mut_lanes(), p.off@ == 0;
 }
 impl<const N: usize> VxAsMutPtr for [f32; N] {
     open spec fn vx_mut_lanes(&self) -> int { N as int }
@@ -74,6 +75,13 @@ impl<const N: usize> VxHsum for [f32; N] {
     #[verifier::external_body]
     fn vx_hsum(&self) -> (r: F32) { unimplemented!() }
 }
+
+/// safe indexing `s[i]` of a slice (panics unless `i < s.len()`): stated as a stub precondition so that a failing index is
+/// reported as a named obligation (`precondition not satisfied`); the body is the native indexing, checked by Verus
+pub fn vx_at(s: &[F32], i: usize) -> (r: F32)
+    requires i < s@.len(),
+    ensures r == s@[i as int],
+{ s[i] }
 
 // ---------------------------------------------------------------- loads and stores: the whole vector must lie inside the object
 #[verifier::external_body]
@@ -127,6 +135,28 @@ pub unsafe fn _mm512_storeu_ps(p: VxPtr, v: __m512)
 // ---------------------------------------------------------------- `(a..b).step_by(k)`
 pub open spec fn vx_step_count(from: int, end: int, step: int) -> int {
     if from < end && step > 0 { (end - from + step - 1) / step } else { 0 }
+}
+/// proved (not trusted), not used by the kernels: sanity of the trusted `next` stub of VxStepBy.  `remaining()` below has at least one
+/// item while cur < end, every item is < end, and advancing `cur` by `step` removes exactly the first item (the prophetic law
+/// `next` is assumed to obey)
+pub proof fn lemma_vx_step_by_advance(cur: int, end: int, step: int)
+    requires step > 0, cur < end,
+    ensures
+        vx_step_count(cur, end, step) >= 1,
+        vx_step_count(cur + step, end, step) == vx_step_count(cur, end, step) - 1,
+        forall|j: int| 0 <= j < vx_step_count(cur, end, step) ==> cur + #[trigger] (j * step) < end,
+{
+    let d = end - cur;
+    assert((d + step - 1) / step >= 1) by (nonlinear_arith) requires d >= 1, step > 0;
+    if cur + step < end {
+        assert((d - step + step - 1) / step == (d + step - 1) / step - 1) by (nonlinear_arith) requires step > 0;
+    } else {
+        assert((d + step - 1) / step == 1) by (nonlinear_arith) requires 0 < d <= step, step > 0;
+    }
+    assert forall|j: int| 0 <= j < vx_step_count(cur, end, step) implies cur + #[trigger] (j * step) < end by {
+        let c = (d + step - 1) / step;
+        assert(j * step < d) by (nonlinear_arith) requires 0 <= j < c, c == (d + step - 1) / step, step > 0, d >= 1;
+    }
 }
 /// std's StepBy<Range<usize>>: `k` items were yielded so far
 pub struct VxStepBy { pub start: Ghost<int>, pub k: Ghost<int>, pub end: Ghost<int>, pub step: Ghost<int> }
